@@ -15,7 +15,8 @@ RULE = ("(a) deterministic corpus of ill-addressed operations (every write op x 
         "{populated, empty, missing} bucket; replace / replace_last / insert / one-element bulk call whose event "
         "ARGUMENT carries an id other than the addressed one: foreign, dead, deleted, another live one; one Event "
         "OBJECT handed to calls on two and three different buckets, first call x second call over insert / bulk / "
-        "replace / replace_last, and objects the store handed back passed to a write on another bucket) on both "
+        "replace / replace_last, and objects the store handed back passed to a write on another bucket; the caller "
+        "changing in place the object it passed to each kind of write / got from each kind of read) on both "
         "layers (storage object; public Datastore / Bucket API), then seeded random histories of 1-40 ops over 1-3 "
         "buckets, three quarters of them with the malformed stream on, half of them passing Event objects again "
         "(30 % of the event arguments), alternating between the layers; every history is run on memory, sqlite "
@@ -40,7 +41,7 @@ def main(argv=None):
     hists = ([(sym, univ, None, "storage") for sym, univ in mal + sh.boundary_histories()[::6]]
              + [(sym, univ, None, "datastore") for sym, univ in mal[1::2]]
              + [(sym, univ, None, layer) for layer in sh.LAYERS
-                for sym, univ in sh.carried_id_histories() + sh.reuse_histories()])
+                for sym, univ in sh.carried_id_histories() + sh.reuse_histories() + sh.touch_histories()])
     for i in range(n_random):
         sym, univ = sh.gen_history(ck.rng, malformed=(i % 4 != 3), reuse=0.3 if i % 4 in (0, 3) else 0.0)
         hists.append((sym, univ, None, sh.LAYERS[(i // 4) % 2]))
@@ -56,7 +57,7 @@ def main(argv=None):
             interesting = False
             for j, (op, step) in enumerate(zip(run["ops"], run["steps"])):
                 res, after = step[0], step[1:]
-                tgt = None if op[0] == 3 else op[1]
+                tgt = None if op[0] in (3, 13) else op[1]      # 13: the caller changes an object of its own, no call
                 status = "ok" if res[0] == 0 else sh.ERRNAME.get(res[1], "err")
                 ck.count(f"{be}:{sh.OPNAME[op[0]]}:{status}")
                 others_populated = any(v != [] and v[0][1] for b, v in zip(univ, before) if b != tgt)
@@ -109,7 +110,7 @@ def main(argv=None):
                     ck.failing_input(f"C04:{be}:{sh.OPNAME[op[0]]}-changes-other-bucket",
                                      f"{be}{'' if layer == 'storage' else ' (through Datastore/Bucket)'}: "
                                      f"{sh.describe(op)} ({status}"
-                                     f"{', its event argument is the OBJECT passed to / returned by an earlier call: ' + str(reused) if reused else ''}"
+                                     f"{(', the object is the one ' if op[0] == 13 else ', its event argument is the OBJECT ') + 'passed to / returned by an earlier call: ' + str(reused) if reused else ''}"
                                      f") changed bucket {b}: "
                                      f"{before[univ.index(b)]} -> {after[univ.index(b)]}",
                                      {"backend": be, "layer": layer,
